@@ -133,6 +133,43 @@ def replay_edges(ctx, edges_path, kind, to, cap, channels, impls):
     return paths_file
 
 
+def run_apalache(ctx, module, step_timeout=2400, witness=None):
+    """Unbounded safety of the DESIGN without value abstraction: Apalache checks that IndInv is an
+    inductive invariant (base: Init => IndInv; step: IndInv /\\ Next => IndInv') over the full
+    alphabet.  A time-out or tool failure is 'not discharged', never a violation."""
+    import shutil, os
+    from common import sh, SPEC
+    d = ctx.work.fresh("apalache_" + module + "_", "d")
+    os.makedirs(d)
+    for sub in ("", "apalache"):
+        for f in os.listdir(os.path.join(SPEC, sub)):
+            if f.endswith(".tla"):
+                shutil.copy(os.path.join(SPEC, sub, f), d)
+    rec = {"module": module, "tool": "apalache-mc 0.58.0"}
+    for name, args, tmo in (("base", ["--init=Init", "--inv=IndInv", "--length=0"], 600),
+                            ("step", ["--init=IndInit", "--inv=IndInv", "--length=1"], step_timeout)):
+        cmd = ["timeout", str(tmo), "apalache-mc", "check"] + args + ["--out-dir=" + os.path.join(d, "out_" + name), module + ".tla"]
+        rc, out, dt = sh(cmd, cwd=d, check=False, timeout=tmo + 60)
+        ok = "The outcome is: NoError" in out
+        rec[name] = {"discharged": ok, "wall_s": round(dt, 1), "cmd": " ".join(cmd[2:])}
+        if not ok:
+            rec[name]["tail"] = out[-600:]
+            if "The outcome is: Error" in out and "violat" in out.lower():
+                raise ToolError("Apalache found IndInv not inductive for %s (a defect of the SPECIFICATION):\n%s" % (module, out[-1500:]))
+        log("apalache %s %s: %s (%.0fs)" % (module, name, "discharged" if ok else "NOT discharged", dt))
+    if witness:
+        # non-vacuity: IndInit must admit the interesting states, i.e. the negated witness must be violated
+        cmd = ["timeout", "600", "apalache-mc", "check", "--init=IndInit", "--inv=" + witness, "--length=0",
+               "--out-dir=" + os.path.join(d, "out_witness"), module + ".tla"]
+        rc, out, dt = sh(cmd, cwd=d, check=False, timeout=700)
+        rec["witness"] = {"invariant_expected_to_fail": witness, "failed_as_expected": "The outcome is: Error" in out,
+                          "wall_s": round(dt, 1)}
+    ctx.extra = getattr(ctx, "extra", {})
+    ctx.extra.setdefault("apalache", []).append(rec)
+    shutil.rmtree(d, ignore_errors=True)
+    return rec
+
+
 # ----------------------------------------------------------------------------- traces
 
 def n_trace_events(cmd, trace_row):
